@@ -38,6 +38,8 @@ for mp in sorted(glob.glob(f"{V}/seeded/*/meta.json")):
         st0 = "missed"
     elif "no-failing-input-found" in f or "broken" in f.split(":")[0] or "tie only" in f or "broken proof only" in f or "broken-tie" in f:
         st0 = "broken proof/tie only"
+    elif f.startswith("not run"):
+        st0 = "not run"
     else:
         st0 = "caught"
     now = "caught (failing input)" if (m.get("detected_after_strengthening") or st0 == "caught") else st0
@@ -62,12 +64,13 @@ metas = [json.load(open(f)) for f in sorted(_glob.glob(f"{V}/seeded/C*/meta.json
 W10 = {"C01-6","C02-7","C03-6","C04-6","C05-6","C06-7","C07-7","C10-6","C12-6","C13-6","C14-6","C15-6","C18-7","C19-7"}
 out = []
 for title, sel in (("Wave 10 (end of session 2; 14 properties)", lambda m: m["id"] in W10),
-                   ("Wave 11 (session 3; all 20 properties; run against the COMMITTED checks through lib/verif_snapshot.sh while the workers were editing)", lambda m: _wave(m) == 11)):
+                   ("Wave 11 (session 3; all 20 properties; run against the COMMITTED checks through lib/verif_snapshot.sh while the workers were editing)", lambda m: _wave(m) == 11),
+                   ("Wave 12 (session 4; 9 properties before the sandbox stalled; run against the COMMITTED checks while the workers were editing; three first-sight runs could not be completed)", lambda m: _wave(m) == 12)):
     rs = []
     for m in metas:
         if not sel(m): continue
         d = str(m.get("detected_by", ""))
-        st = "**missed**" if d.startswith("MISSED") else ("broken tie only" if d.startswith("broken") else "caught")
+        st = "**missed**" if d.startswith("MISSED") else ("broken tie only" if d.startswith("broken") else ("not run" if d.startswith("not run") else "caught"))
         das = m.get("detected_after_strengthening")
         if das and st != "caught":
             st += " → **caught** " + (das if isinstance(das, str) else "").replace("|", "/").replace("\n", " ")[:300]
